@@ -234,6 +234,8 @@ func (c *MapCodec) readMapEntry(mp, k unsafe.Pointer, data []byte) (int, error) 
 		k = c.kZero
 	}
 
+	verifYield("map-key-read")
+
 	// Assign/find a place in the map for this key. Val is a pointer to where
 	// the value should be. We're going to unmarshal into this directly
 	val := mapassign(unpackEFace(c.rtype).data, mp, k)
